@@ -276,7 +276,8 @@ fn instructions(ctx: &Ctx, draws: u64) -> SubReport {
         s.ints = vec![42];
         work.push(W { name: "INTEGER.RAND", state: s });
     }
-    for (fmin, fmax) in [(-1.0f32, 1.0), (0.0, 1e-30), (2.0, 2.0), (3.0, -3.0), (-1e30, 1e30), (f32::NAN, 1.0), (0.0, f32::INFINITY)] {
+    let up = |x: f32, k: u32| f32::from_bits(x.to_bits() + k);
+    for (fmin, fmax) in [(-1.0f32, 1.0), (0.0, 1e-30), (2.0, 2.0), (3.0, -3.0), (-1e30, 1e30), (f32::NAN, 1.0), (0.0, f32::INFINITY), (0.1, up(0.1, 3)), (16777216.0, 16777220.0), (1.0, up(1.0, 1)), (-8.0, up(-8.0, 0) + 0.000002)] {
         let mut s = base();
         s.config.min_random_float = fmin;
         s.config.max_random_float = fmax;
@@ -427,7 +428,7 @@ pub fn run(ctx: &Ctx) -> PropReport {
         "INV on every draw: length = size, elements in [min,max), TRUE count = the documented rounding of sparsity x size (complemented above 0.5), invalid parameters give no vector, instruction operands consumed and nothing else touched, RANDBOUNDNAME in the binding keys; never a panic (hangs are caught by the supervising parent). Coverage INV: every position of a bit vector becomes TRUE within 700 draws (false alarm < 1e-13).",
     );
     rep.assumptions.push("documented rounding of BOOLVECTOR.RAND: share of non-default bits rounded to two decimals, count = truncated product; when the exact product is within 0.2 of an integer the neighbouring count is accepted too (float truncation)".into());
-    let d = ctx.tier.pick(1000u64, 20_000u64);
+    let d = ctx.tier.pick(5000u64, 200_000u64);
     rep.push(bool_vector(ctx, d));
     rep.push(position_coverage(ctx));
     rep.push(int_vector(ctx, d));
